@@ -302,8 +302,15 @@ func (cx *Ctx) lossLessFormula(r *Report) {
 		blocks = append(blocks, b)
 	}
 	sort.Slice(blocks, func(i, j int) bool {
-		if blocks[i].Parent() != blocks[j].Parent() {
-			return blocks[i].Parent().String() < blocks[j].Parent().String()
+		pi, pj := blocks[i].Comment, blocks[j].Comment
+		if blocks[i].Parent() != nil {
+			pi = blocks[i].Parent().String()
+		}
+		if blocks[j].Parent() != nil {
+			pj = blocks[j].Parent().String()
+		}
+		if pi != pj {
+			return pi < pj
 		}
 		return blocks[i].Index < blocks[j].Index
 	})
